@@ -1,7 +1,7 @@
 (* C08 -- property theorems only.  Each is closed by `exact <lemma>`; axioms are
    printed by the audit step of bin/check (Print Assumptions per theorem). *)
 From Coq Require Import String List Bool Arith NArith ZArith Permutation.
-From SV Require Import C08.Types C08.Model C08.Spec C08.ProofsTop C08.Unpack C08.UnpackProofs.
+From SV Require Import C08.Types C08.Model C08.Spec C08.ProofsTop C08.ProofsBind C08.Unpack C08.UnpackProofs C08.ProofsSameRules.
 Import ListNotations.
 Open Scope string_scope.
 
@@ -93,6 +93,33 @@ Theorem unpack_correct :
      forall j, nth_error (fst (unpack_args ps args K T0)) j = want ps args K T0 j).
 Proof. exact unpack_correct_full. Qed.
 
+(* "Host built-ins bind by the same rules": for ALL parameter lists (plain
+   parameters followed by optional ones, each paired with the previous content of
+   its target, distinct names) and ALL calls in which every argument has a type
+   its parameter accepts and no "??" parameter is given None, the specification
+   of UnpackArgs IS the Python binder of Spec.v applied to
+       def f(plain.., optional.. = <previous target content>)
+   -- it fails on exactly the same calls with the same class (too many
+   positional / unexpected keyword / multiple values / missing) and on success
+   target j receives what the binder assigns to parameter j. *)
+Theorem unpack_same_rules :
+  forall (plains opts : list (uparam * tval)) (args : list arg) (K : list (string * arg)),
+    let pts := (plains ++ opts)%list in
+    let ps := map fst pts in
+    let T0 := map snd pts in
+    (forall pt, In pt plains -> p_marker (fst pt) = MPlain) ->
+    (forall pt, In pt opts -> p_marker (fst pt) <> MPlain) ->
+    NoDup (map (fun pt => p_name (fst pt)) pts) ->
+    (forall p a, In p ps -> skip_none p a = false /\ accepts (p_kind p) (a_ty a) = true) ->
+    match spec_unpack_err ps args K with
+    | Some e => spec_core (sig_of plains opts) (map Stored args) (wrapK K) = Err (cls e)
+    | None =>
+        exists pv, spec_core (sig_of plains opts) (map Stored args) (wrapK K) =
+                   Ok {| b_pos := pv; b_kwonly := []; b_args := None; b_kwargs := None |} /\
+                   forall j, j < length ps -> option_map Some (nth_error pv j) = Some (want ps args K T0 j)
+    end.
+Proof. exact unpack_same_rules_lemma. Qed.
+
 (* No clobbering: if unpacking fails because the argument for parameter i has a
    type (or integer range) its target does not accept -- whether it was passed
    positionally or by keyword -- target i still holds its previous content.
@@ -145,6 +172,17 @@ Example ex_unpack_bad :
   = ([Stored (mk (TInt 1%Z) 10); Prev 1; Prev 2], Some (UBadArg 1))
   /\ first_bad_pos 0 [mk (TInt 1%Z) 10; mk (TInt 2%Z) 11] ex_ps = Some (UBadArg 1).
 Proof. split; vm_compute; reflexivity. Qed.
+
+Definition pv (n : string) (m : marker) : uparam := {| p_name := n; p_marker := m; p_kind := KValue |}.
+Example ex_same_rules :
+  (forall p a, In p [pv "x" MPlain; pv "y" MOpt] -> skip_none p a = false /\ accepts (p_kind p) (a_ty a) = true)
+  /\ spec_unpack_err [pv "x" MPlain; pv "y" MOpt] [mk TList 7] [("y", mk TNone 8)] = None
+  /\ spec_core (sig_of [(pv "x" MPlain, Prev 0)] [(pv "y" MOpt, Prev 1)]) [Stored (mk TList 7)] (wrapK [("y", mk TNone 8)])
+     = Ok {| b_pos := [Stored (mk TList 7); Stored (mk TNone 8)]; b_kwonly := []; b_args := None; b_kwargs := None |}.
+Proof.
+  split; [|split; vm_compute; reflexivity].
+  intros p a [H|[H|[]]]; subst; split; reflexivity.
+Qed.
 
 Example ex_unpack_positional :
   unpack_positional 1 [KInt; KString] [mk (TInt 1%Z) 10; mk TBool 11] [] [Prev 0; Prev 1]
